@@ -20,12 +20,16 @@ def _manifest():
     man_path = _os.path.join(_CAPI, "manifest.json")
     if wanted:
         _sys.path.insert(0, _os.path.join(_VERIF, "gen"))
+        _dwb = _sys.dont_write_bytecode
+        _sys.dont_write_bytecode = True      # no gen/__pycache__ in the tree
         try:
             import capi_gen
             return capi_gen.ensure(_REPO, _CAPI, verbose=True)
         except Exception as e:     # never break the registry of the other checks
             print("[C20] generator failed: %s" % e, file=_sys.stderr)
             return {"error": str(e)}
+        finally:
+            _sys.dont_write_bytecode = _dwb
     try:
         return _json.load(open(man_path))
     except Exception:
